@@ -118,17 +118,27 @@ func (c *sqlQueryChecker) funcIsExec(fn *types.Func) bool {
 }
 
 func (c *sqlQueryChecker) typeHasExecMethod(typ types.Type) bool {
+	return c.typeHasExecMethodRec(typ, make(map[types.Type]bool))
+}
+
+func (c *sqlQueryChecker) typeHasExecMethodRec(typ types.Type, visited map[types.Type]bool) bool {
+	// A type can embed (a pointer to) itself: type T struct{ *T }.
+	if visited[typ] {
+		return false
+	}
+	visited[typ] = true
+
 	switch typ := typ.(type) {
 	case *types.Struct:
 		for i := 0; i < typ.NumFields(); i++ {
-			if c.typeHasExecMethod(typ.Field(i).Type()) {
+			if c.typeHasExecMethodRec(typ.Field(i).Type(), visited) {
 				return true
 			}
 		}
 	case *types.Alias:
 		switch typ := typ.Underlying().(type) {
 		case *types.Interface:
-			return c.typeHasExecMethod(typ)
+			return c.typeHasExecMethodRec(typ, visited)
 		default:
 			// TODO(cristaloleg): is there something else to handle?
 		}
@@ -139,7 +149,7 @@ func (c *sqlQueryChecker) typeHasExecMethod(typ types.Type) bool {
 			}
 		}
 	case *types.Pointer:
-		return c.typeHasExecMethod(typ.Elem())
+		return c.typeHasExecMethodRec(typ.Elem(), visited)
 	case *types.Named:
 		for i := 0; i < typ.NumMethods(); i++ {
 			if c.funcIsExec(typ.Method(i)) {
@@ -148,7 +158,7 @@ func (c *sqlQueryChecker) typeHasExecMethod(typ types.Type) bool {
 		}
 		switch ut := typ.Underlying().(type) {
 		case *types.Interface:
-			return c.typeHasExecMethod(ut)
+			return c.typeHasExecMethodRec(ut, visited)
 		case *types.Struct:
 			// Check embedded types.
 			for i := 0; i < ut.NumFields(); i++ {
@@ -156,7 +166,7 @@ func (c *sqlQueryChecker) typeHasExecMethod(typ types.Type) bool {
 				if !field.Embedded() {
 					continue
 				}
-				if c.typeHasExecMethod(field.Type()) {
+				if c.typeHasExecMethodRec(field.Type(), visited) {
 					return true
 				}
 			}
